@@ -21,7 +21,7 @@ Step(next) == pc' = next /\ UNCHANGED <<s, handler, o>>
 Open    == pc = "open"    /\ IF s.model \in {"missing", "empty", "trunc_header"} THEN Fail(500) ELSE (pc' = "options" /\ handler' = TRUE /\ UNCHANGED <<s, o>>)
 Options == pc = "options" /\ IF OptBad(s) THEN Fail(500) ELSE Step("body")
 Body    == pc = "body"    /\ IF BodyBad(s) THEN Fail(500) ELSE Step("convert")
-Convert == pc = "convert" /\ IF ConvBad(s) THEN Fail(500) ELSE IF s.model = "infeas" THEN Fail(200) ELSE Step("report")
+Convert == pc = "convert" /\ IF ConvBad(s) THEN Fail(500) ELSE IF s.model \in {"infeas", "infeas_nested"} THEN Fail(200) ELSE Step("report")
 Report  == /\ pc = "report" /\ pc' = "done" /\ UNCHANGED <<s, handler>>
            /\ IF WantsSol(s) /\ s.out = "ok" THEN o' = [o EXCEPT !.sol = "ok", !.code = Scripted, !.msgNonEmpty = TRUE, !.exit = 0]
               ELSE IF WantsSol(s) THEN o' = [o EXCEPT !.exit = 1, !.stderrNonEmpty = TRUE]
